@@ -1,5 +1,5 @@
 """C03 — GenBank write-then-read is the identity; writing is deterministic; the text follows the flat-file layout."""
-import os
+import os, sys
 from common import *
 
 RULE = ("structured records (`rec`): locus (name or none, length, one of poly's 12 molecule types or none, topology, division, date, unit), six "
@@ -10,7 +10,8 @@ RULE = ("structured records (`rec`): locus (name or none, length, one of poly's 
         "text or structural (span incl. {0,0} and reversed / complement incl. of a complement / join / Join-less multi-operand node / nested, "
         "partial markers), sequence length log-uniform 1..MAXSEQ; half of the records are drawn inside the domain of parse_build_partial; and records in "
         "the image of the REAL parser (`img`): the same generated records laid out as NCBI-style or poly-style flat files (wrap widths, "
-        "wrapped qualifiers, multi-line locations, final newline or not) plus the single-record files of /repo/data. Every record is "
+        "wrapped qualifiers, multi-line locations, final newline or not), files laid out by property C01's writer GbLayout.layoutFile (`img01`: "
+        "value-less / unquoted qualifiers, repeated keys, omitted blocks, extras between blocks, operator locations) plus the single-record files of /repo/data. Every record is "
         "built 24 times in one process with its maps refilled in varying orders, and its first output is HELD while a different record is "
         "built and compared with a copy taken at once. non-trivial = at least one feature or one wrapped "
         "metadata block; distinct by case text")
@@ -28,6 +29,11 @@ ASSUMPTIONS = ["all text is printable ASCII",
                "locations the layout judgement is correspondence with C02's text, not an independent expectation",
                "the independent reader accepts lines of any length (Build never wraps qualifier values; a 600-letter /translation is one line) and "
                "reads the LOCUS line by tokens, not by NCBI's LOCUS columns (Build separates the fields by five blanks)",
+               "the class of the known finding C03-blank-run-at-wrap and the predicted record (expectedBack) are computed with the writer MODEL's "
+               "WrapString; the tag is given only when the REAL reply (strict reader, Parse(Build(x)), Write/Read) equals that prediction",
+               "a name-less record is tagged C03-nameless-locus only when everything else is as predicted: with a length the strict reader must "
+               "return exactly the predicted record (name = the length); without one it must reject the text and accept it with the predicted LOCUS line",
+               "an `img` / `img01` text on which genbank.Parse does not return although the parser model (C01) and parseLocation (C02) read it is a FAIL",
                "SequenceCoding is compared only when the record says `bp` and has a length: Build writes the constant ` bp` and has no parameter for another unit",
                "EXCLUDED from 'every generated structured record', each a decidable conjunct of wfLayoutJ / wfSeqJ (Spec/GbStrict.lean) with its reason: "
                "a blank at either END of a metadata value (the keyword line cannot delimit it; genbank.Parse trims, so the parser's image has none); "
@@ -211,7 +217,10 @@ def loc_text(t, insdc):
 # ---- records
 
 def gen_record(r, maxseq, maxfeat, maxmeta, cached_mode, shadow=False, covered=False):
-    """covered=True: a record in the domain of theorem parse_build_partial (C01's abstract record type)"""
+    """covered=True: a record inside `covered` (the domain of theorem parse_build_partial): what is kept fixed is exactly what
+    `covered` still demands — positional Index, single-spaced text, REFERENCE lines that fit, a real month, no negative
+    coordinate, a locus name; everything else (12 molecule types or none, optional topology / division / date / length /
+    range, units, wide keys, inner quotation marks) varies as in the free half"""
     RUNS[0] = (not covered) and r.random() < 0.3
     n = loglen(r, 1, maxseq)
     alphabet = r.choice(["acgt", "acgt", "ACGT", "acgtnrykmswbdhv", "ACGTacgtNn", "acgu"])
@@ -223,17 +232,13 @@ def gen_record(r, maxseq, maxfeat, maxmeta, cached_mode, shadow=False, covered=F
     if shadow:
         # names holding a molecule type / division / date / topology token (repaired defect C03-locus-search)
         name = r.choice(["pDNA3", "SYNB1", "mRNAx", "PRIMER7", "x01-JAN-2001y", "linear", "circular", "genomicDNA", "tRNA"])
-    if covered:
-        mol = r.choice(["DNA", "mRNA", "tRNA", "rRNA"])
     u = r.random()
-    if covered:
-        u = r.random() * 0.9
     rec = {
         "name": name,
-        "seqlen": str(n) if (covered or r.random() < 0.85) else r.choice(["", "7", "42", "123456"]),
-        "mol": mol, "div": r.choice(DIVISIONS + ([] if covered else [""])),
-        "date": "%02d-%s-%04d" % (r.randint(1, 31), r.choice(MONTHS), r.randint(1980, 2030)) if (covered or r.random() < 0.9) else "",
-        "coding": "bp" if (covered or r.random() < 0.9) else r.choice(["", "aa", "rc"]), "circ": u < 0.4, "lin": 0.4 <= u < 0.9,
+        "seqlen": str(n) if r.random() < 0.85 else r.choice(["", "7", "42", "123456"]),
+        "mol": mol, "div": r.choice(DIVISIONS + [""]),
+        "date": "%02d-%s-%04d" % (r.randint(1, 31), r.choice(MONTHS), r.randint(1980, 2030)) if r.random() < 0.9 else "",
+        "coding": "bp" if r.random() < 0.9 else r.choice(["", "aa", "rc"]), "circ": u < 0.4, "lin": 0.4 <= u < 0.9,
         "defi": text(r, maxmeta), "acc": text(r, 40), "ver": text(r, 40), "kw": text(r, maxmeta // 4),
         "src": text(r, maxmeta // 2, kw=r.random() < 0.15), "org": text(r, maxmeta),
     }
@@ -244,15 +249,13 @@ def gen_record(r, maxseq, maxfeat, maxmeta, cached_mode, shadow=False, covered=F
     for i in range(r.choice([0, 0, 1, 1, 2, 3, 4, 5])):
         refs.append((r.choice(["", str(i + 2), "7", "12a"]) if renumber else str(i + 1), text(r, maxmeta // 2, 0.2, kw=r.random() < 0.15), text(r, maxmeta // 2, 0.2, kw=r.random() < 0.15),
                      text(r, 200, 0.2), text(r, 12, 0.4), text(r, maxmeta // 2, 0.5),
-                     "" if (r.random() < 0.15 and not covered) else
+                     "" if r.random() < 0.15 else
                      ("(bases %d to %d)" % (r.randint(1, n), n) if (covered or r.random() < 0.85) else
                       "(bases " + "; ".join("%d to %d" % (a, a + 9) for a in range(1, r.choice([60, 100, 400]), 20)) + ")")))
     rec["refs"] = refs
     keys = r.sample(OTHER_KEYS + [randword(r, "ABCDEFGHIJKLMNOPQRSTUVWXYZ", r.randint(1, 11)) for _ in range(2)], r.choice([0, 0, 1, 1, 2, 4]))
     keys = [k for k in dict.fromkeys(keys) if k not in ("LOCUS DEFINITION ACCESSION VERSION KEYWORDS SOURCE ORGANISM REFERENCE AUTHORS "
                                                           "TITLE JOURNAL PUBMED REMARK FEATURES ORIGIN").split()]
-    if covered:
-        keys = [k for k in keys if len(k) <= 10 and k.isalpha() and k.isupper()]
     rec["other"] = [(k, text(r, maxmeta, 0.1, kw=r.random() < 0.15)) for k in keys]
     feats = []
     nf = r.choice([0, 1, 2, 3, 5, 8]) if r.random() < 0.8 else r.randint(0, maxfeat)
@@ -261,7 +264,7 @@ def gen_record(r, maxseq, maxfeat, maxmeta, cached_mode, shadow=False, covered=F
         cached = {"all": True, "none": False, "mixed": r.random() < 0.5}[cached_mode]
         insdc = r.random() < 0.3
         qk = r.sample(QUAL_KEYS, r.randint(0, 8))
-        attrs = [(k, qual_value(r, k).replace('"', "'") if covered else qual_value(r, k)) for k in qk]
+        attrs = [(k, qual_value(r, k)) for k in qk]
         if covered and loc_has(t, lambda q: q[0] == "span" and q[1] < 0):
             t = ("span", 0, 1, False, False)
         feats.append((r.choice(FEATURE_KEYS), loc_text(t, insdc) if cached else "", loc_ser(t, cached or r.random() < 0.5), attrs, t))
@@ -425,6 +428,24 @@ def cases(seed, tier):
     for i in range(nimg):
         R = gen_record(r, maxseq // 2, 40 if not quick else 10, maxmeta if i % 4 == 0 else 300, "all", covered=(i % 2 == 0))
         yield ["img", layout(r, R, r.choice(["ncbi", "ncbi", "poly"]))]
+    # files laid out by property C01's independent writer (value-less / unquoted qualifiers, repeated keys, omitted blocks,
+    # extras between the standard blocks, operator locations, every LOCUS shape): `img01 <C01 case>`, rendered by C01's `render`
+    try:
+        import importlib.util
+        sp = importlib.util.spec_from_file_location("gen_c01_for_c03", os.path.join(os.path.dirname(os.path.abspath(__file__)), "c01.py"))
+        c01 = importlib.util.module_from_spec(sp); sp.loader.exec_module(c01)
+        want = 120 if quick else 1500
+        got = 0
+        for k, c in enumerate(c01.cases(seed, tier)):
+            c = list(c)
+            # one record, mode parse, no flat-file header:  c01 parse finalNewline header nrec record…
+            if len(c) > 5 and c[0] == "c01" and c[1] == "parse" and c[3] == "0" and c[4] == "1" and k % 3 == 0:
+                yield ["img01"] + c
+                got += 1
+                if got >= want:
+                    break
+    except Exception as e:                              # C01's generator is another worker's file: its absence must not hide C03's own cases
+        sys.stderr.write("[c03] C01 cases not available: %r\n" % (e,))
     # the long records the property names
     for n in ([10000] if quick else [60000, 99999, 100000]):
         R = gen_record(r, 10, 40, 2000, "mixed")
@@ -444,7 +465,7 @@ def cases(seed, tier):
 TECHNIQUE = ("Lean 4 proof over a transcription of genbank.Build (incl. go-wordwrap) with the map iteration order as a universally quantified "
              "parameter, against an independent strict column reader; differential correspondence on Build output, repeated builds, "
              "Parse(Build(x)) and Write/Read")
-LEVEL_TEXT = ("Determinism (all map iteration orders), the cached-or-structural location clause, the wrap/unwrap inversion for single-spaced "
+LEVEL_TEXT = ("Determinism (all map iteration orders), the wrap/unwrap inversion for single-spaced "
               "text of any length and the layout clause (strictRead (build x o) = some (abs x) for every record of the decidable layout domain: "
               "any number of blocks, references, features, qualifiers, any text and sequence length) are kernel-checked theorems about the model; "
               "the write-then-read clause is a theorem over the parser model of property C01 for the records C01's abstract record type "
